@@ -22,7 +22,7 @@ ASSUMPTIONS = [
     "'never modifies the user's objects': every attribute of every pool object is the same object afterwards and list / tuple / "
     "dict / set attributes hold the same elements (by identity, in order)",
 ]
-BOUNDS = {"quick": dict(prior_ops="H<=2", objects="3 (2x2 for the join template)", templates=9,
+BOUNDS = {"quick": dict(prior_ops="H<=2", objects="3 (2x2 for the join template)", templates=10,
                         collections="2 parents x 2 elements (list / tuple), queries over concatenate / flatten / in_(x, concatenate)"),
           "thorough": dict(prior_ops="H<=3", objects="3", templates=7, caching="on and off",
                            collections="as quick, all histories H<=2")}
@@ -40,6 +40,9 @@ TEMPLATES = {
     "plain": dict(c1=FF, c2=["and", LT, FF]),
     "join": dict(c1=["and", ["cmp", "lt", ["a", "x", "a"], ["a", "y", "a"]], FF], c2=["cmp", "eq", ["a", "x", "b"], ["a", "y", "b"]],
                  two=True),
+    # the right operand of the conjunction introduces the second variable (one left binding has several right values)
+    "join2": dict(c1=["and", FF, ["cmp", "le", ["a", "x", "a"], ["a", "y", "a"]]],
+                  c2=["and", ["cmp", "gt", ["a", "x", "b"], ["lit", 0]], ["cmp", "ne", ["a", "x", "b"], ["a", "y", "b"]]], two=True),
     "forall": dict(c1=FF, c2=LT, forall=["cmp", "gt", ["a", "x", "b"], ["a", "u", "a"]]),
     # the same @predicate function applied to DIFFERENT values of the same objects in the two queries
     "pv": dict(c1=["and", ["pv", ["a", "x", "a"], 0], FF], c2=["pv", ["a", "x", "b"], 0]),
